@@ -70,6 +70,7 @@ def w_repr(cfg, tier):
     col.encoded(cls.qubit_representation, cls.stabilizer_representation, sc.StabilizerCode.qubit_representation,
                 sc.StabilizerCode.stabilizer_representation, cls.stabilizer_type, cls.qubit_axis)
     code.stabilizer_matrix
+    fresh_code = common.make_code(parts[1])
     lt.symbolize(code)
     for kind, coords, index, fn_name, keys in (
             ('qubit', list(code.qubit_coordinates), code.qubit_index, 'qubit_representation', Q_KEYS),
@@ -84,6 +85,10 @@ def w_repr(cfg, tier):
                 ps = eng.explore(lambda: getattr(code, fn_name)(loc, rotated))
             col.absorb(eng)
             lv = [c.t for c in loc]
+            lt.validate_paths_at(col, f'{cfg}#{kind}{dim}', ps, lv, cs,
+                                 lambda l_, fn_name=fn_name: json.loads(json.dumps(
+                                     getattr(fresh_code, fn_name)(l_, rotated), default=float)),
+                                 lambda v, sub: json.loads(json.dumps(lt.concretise(v, sub), default=float)))
             wit = lambda m, lv=lv, kind=kind: dict(kind=kind, location=[m.eval(v, model_completion=True).as_long() for v in lv],
                                                    rotated=rotated)
             bad_exc, bad_inc = [], []
